@@ -36,7 +36,9 @@ def plan(tier):
     return {'stages': [('shard', 16)], 'timeout_s': 3000}
 
 
-DIALECTS = [(',', 'quoted', 'utf-8'), (',', 'quoted', 'utf-8'), (';', 'quoted', 'utf-8'), ('\t', 'simple', 'utf-8'), ('|', 'simple', 'latin-1'), (',', 'quoted_rfc', 'utf-8'), (' ', 'whitespace', 'utf-8'), ('::', 'quoted', 'utf-8'), ('§', 'quoted', 'utf-8'), ('→', 'simple', 'utf-8'), ('\t', 'simple', 'utf-8'), ('#', 'quoted', 'utf-8')]
+DIALECTS = [(',', 'quoted', 'utf-8'), (',', 'quoted', 'utf-8'), (';', 'quoted', 'utf-8'), ('\t', 'simple', 'utf-8'), ('|', 'simple', 'latin-1'), (',', 'quoted_rfc', 'utf-8'), (' ', 'whitespace', 'utf-8'), ('::', 'quoted', 'utf-8'), ('§', 'quoted', 'utf-8'), ('→', 'simple', 'utf-8'), ('\t', 'simple', 'utf-8'), ('#', 'quoted', 'utf-8'),
+            # the delimiter of a named --out-format together with another policy (the output dialect is fixed by the format name, not by the input policy)
+            ('\t', 'quoted', 'utf-8'), (',', 'simple', 'utf-8'), ('\t', 'quoted_rfc', 'utf-8')]
 
 
 def cell_ok(c, dialect):
